@@ -198,6 +198,11 @@ def gen_history(run_seed: int, cfg: dict) -> dict:
                 op["fracs"] = [round(r.random(), 6) for _ in range(r.randint(1, 25))]
             if r.random() < p_abort:
                 op["abort"] = int(10 ** r.uniform(0, 4.3))
+            if op.get("backend") == "jax" and r.random() < 0.6:
+                # the same functions rewritten for the other backend first (two cooperating calls)
+                first = {k: v for k, v in op.items() if k not in ("backend", "abort")}
+                first["kind"] = r.choice(["source", "func"])
+                ops.append(first)
             ops.append(op)
         elif k == "SWEEP":
             what = r.choice(["REWRITE", "REWRITE", "COMPUTE", "COMPUTE", "SETUP"])
@@ -492,6 +497,7 @@ class Env:
         self.repl = repl  # list of (variant, mode, resolved name)
 
 
+_STRICT = [False]
 _KEEPALIVE = []  # every caller-owned object ever snapshotted stays alive => id() is never reused
 
 
@@ -509,6 +515,11 @@ def _snapshot_all(envs: dict, data_objs: dict) -> dict:
         key = f"data@{id(obj)}/{name.split('/')[-1]}"
         _KEEPALIVE.append(obj)
         snap[key] = digest(_canon_data(obj))
+    if _STRICT[0]:
+        # the caller configured numpy's error handling explicitly: it is the caller's state
+        import numpy as np
+
+        snap["config@numpy_errstate"] = digest(sorted(np.geterr().items()))
     return snap
 
 
@@ -570,6 +581,7 @@ def run_session(history: dict, opts: dict | None = None) -> dict:
         import numpy as np
 
         np.seterr(divide="raise", invalid="raise", over="raise")
+        _STRICT[0] = True
     envs: dict[str, Env] = {}
     pops = {}
     data_objs = {}
